@@ -74,6 +74,12 @@ def _impersonate_options(
 ) -> List[Tuple[str, Any]]:
     tcp_type = tcp.flags & (TCPFlag.SYN | TCPFlag.ACK)  # SYN / SYN+ACK
 
+    # The ack+ / ack- quirks dictate the ACK flag of the impersonated packet
+    if Quirk.NZ_ACK in signature.quirks:
+        tcp_type &= ~TCPFlag.ACK
+    elif Quirk.ZERO_ACK in signature.quirks:
+        tcp_type |= TCPFlag.ACK
+
     def int_only(val: Optional[int]):
         return val if isinstance(val, int) else None
 
@@ -144,16 +150,20 @@ def _impersonate_options(
                 Quirk.OPT_ZERO_TS1 in signature.quirks
             ):  # own timestamp specified as zero
                 ts1 = 0
-            elif uptime is not None:  # if specified uptime, override
-                ts1 = uptime
-            elif ts1 is None or not (0 <= ts1 < max_ts):  # invalid hint
+            elif uptime is not None and 0 < uptime < max_ts:
+                ts1 = uptime  # if specified uptime, override
+            elif ts1 is None or not (0 < ts1 < max_ts):
+                # no (usable) hint: a zero timestamp would add the 'ts1-' quirk
                 ts1 = random.randint(120, 100 * 60 * 60 * 24 * 365)
 
-            # non-zero peer timestamp on initial SYN
-            if Quirk.OPT_NZ_TS2 in signature.quirks and tcp_type == TCPFlag.SYN:
-                if ts2 is None or not (0 < ts2 < max_ts):  # invalid hint
+            if tcp_type == TCPFlag.SYN:
+                # peer timestamp on initial SYN: non-zero exactly with 'ts2+'
+                if Quirk.OPT_NZ_TS2 not in signature.quirks:
+                    ts2 = 0
+                elif ts2 is None or not (0 < ts2 < max_ts):  # invalid hint
                     ts2 = random.randrange(1, max_ts)
-            else:
+            elif ts2 is None or not (0 <= ts2 < max_ts):
+                # SYN+ACK echoes the peer timestamp, any value is fine
                 ts2 = 0
 
             impersonated_option = ("Timestamp", (ts1, ts2))
